@@ -226,6 +226,10 @@ CheckDispatch ==
          IN  ~(N.my.test /\ p \in Peers /\ N1.rec[p].test) => NViol("P_X04_i", "test-callback-without-handshake", "", "", p, 0, 0)
     /\ (E.sends /\ E.xtest /\ N.inOpen[E.p] /\ N.my.test /\ N1.rec[E.p].test /\ E.p \notin SeqSet(E.testrecv)) =>
          NViol("P_X04_i", "test-rpc-not-dispatched", "", "", E.p, 0, 0)
+    \* the code as found calls the test extension for EVERY RPC of such a peer, with or without a TestExtension message (X04-F7)
+    /\ \A i \in DOMAIN E.testrecv :
+         (N.my.test /\ E.testrecv[i] \in Peers /\ N1.rec[E.testrecv[i]].test /\ ~(E.sends /\ E.p = E.testrecv[i] /\ E.xtest)) =>
+             NViol("P_X04_i", "as-found-test-callback-without-test-rpc", "", "", E.testrecv[i], 0, 0)
 
 \* j: a peer that requested partial messages gets no full message, no IHAVE and (when the node requests them too) no IDONTWANT
 MsgTo(p, m) == \E f \in SeqSet(E.frames) : f.p = p /\ \E k \in DOMAIN f.msgs : f.msgs[k].m = m
